@@ -276,6 +276,7 @@ func seal[T comparable](d *Drv, r []T) []T {
 
 // flushArgs checks and then scribbles over all argument slices handed out since the last flush.
 func (d *Drv) flushArgs(where string) {
+	scribbleComps()
 	for i := range d.args {
 		if !d.args[i].intact() {
 			d.viol("C01", "caller-slice-modified", "%s: the library modified a caller-owned %s argument (or its spare capacity)", where, d.args[i].what)
@@ -331,12 +332,34 @@ func (d *Drv) ids(cs []int) []ecs.ID {
 	return seal(d, r)
 }
 
+// CompGuard enables the scribbling over of component lists handed to the library (off for concurrent use).
+var CompGuard = true
+
+var compLists [][]ecs.Comp
+
+// comps builds a component list argument. Every list handed out earlier is scribbled over first: a caller may reuse
+// such a list as a scratch buffer as soon as the call that received it has returned (builders like With/For/Removes
+// must not keep it).
 func comps(cs []int) []ecs.Comp {
-	r := make([]ecs.Comp, len(cs))
+	scribbleComps()
+	r := make([]ecs.Comp, len(cs), len(cs)+2)
 	for i, c := range cs {
 		r[i] = u.Types[c].Comp
 	}
+	if CompGuard {
+		compLists = append(compLists, r)
+	}
 	return r
+}
+
+func scribbleComps() {
+	for _, l := range compLists {
+		full := l[:cap(l)]
+		for i := range full {
+			full[i] = ecs.Comp{}
+		}
+	}
+	compLists = compLists[:0]
 }
 
 // relStyle selects how ecs.Relation values are built.
